@@ -167,6 +167,25 @@ CHECKS.update({
              'sys.exc_info / traceback growth are a model in pyvc), A-CTXLIB '
              '(contextlib.contextmanager protocol); pyvc, z3.',
         ref='DESIGN.md section 4 C09'),
+    'C20': dict(
+        text='compute_file_checksum: loop invariant "bytes hashed so far == '
+             'content[:position]" over the real iter(lambda: f.read(n), b\'\') '
+             'loop, for symbolic content and every chunk size n >= 1 '
+             '(unbounded number of chunks, final short chunk included) => '
+             'digest of the whole content; last_bytes == (content[max(0,len-'
+             'n):], max(0,len-n)) incl. the EINVAL fallback and re-raise of '
+             'other errors; ensure_tree / delete_if_exists for a SYMBOLIC '
+             'errno (swallowed exactly for EEXIST-on-a-directory / ENOENT, '
+             'otherwise the same exception object); write_to_tempfile call '
+             'order, single write, close on every path. Bounded stand-in: '
+             'the real file system in a temp dir (sizes around chunk '
+             'multiples x chunk sizes x algorithms, every errno 1..133 '
+             'injected).',
+        note='A-OS (file / hashlib / mkstemp model in the contract script; '
+             'loop heap effects declared via modifies+havoc and checked '
+             'against the write log); loop termination not verified; pyvc, '
+             'z3.',
+        ref='DESIGN.md section 4 C20'),
     'C10': dict(
         text='(1) Regular-language lemmas (z3 RegLan, translated on every run '
              'from the real pattern strings in UNIT_SYSTEM_INFO via CPython\'s '
